@@ -262,7 +262,7 @@ def gen_runs(rng, tmpdir, n, profile, thorough=False, mtype="STANDARD"):
 LAUNCHES = ["arn:aws:states:::states:startExecution", "arn:aws:states:::states:startExecution.sync", "arn:aws:states:::states:startExecution.sync:2"]
 
 
-def children_machines(rng):
+def children_machines(rng, forms=None):
     """-> (parent, child): a random machine some of whose Task states (at any depth) launch the child machine, fire-and-forget or
     waiting for it (.sync, .sync:2), some with a Task timeout shorter than the child needs (the child is then cancelled)"""
     gc = cp.Gen(rng, fanout=False)
@@ -293,7 +293,7 @@ def children_machines(rng):
         tasks.append(parent["States"][nm])
     for i, st in enumerate(tasks):
         if i == 0 or rng.random() < 0.6:
-            st["Resource"] = rng.choice(LAUNCHES)
+            st["Resource"] = rng.choice(forms or LAUNCHES)
             st.pop("ResultSelector", None)
             st.pop("InputPath", None)
             st["Parameters"] = {"StateMachineArn": CHILD_ARN, "Input.$": "$$.Execution.Input"}
